@@ -204,7 +204,7 @@ func (d *Decoder) readTypedMap() (interface{}, error) {
 			return nil, err
 		}
 		if mType.Kind() == reflect.Map {
-			mValue.SetMapIndex(EnsureRawValue(key), EnsureRawValue(value))
+			mValue.SetMapIndex(convertTo(mType.Key(), EnsureRawValue(key)), convertTo(mType.Elem(), EnsureRawValue(value)))
 		} else {
 			fieldName, ok := key.(string)
 			if !ok {
@@ -303,7 +303,7 @@ func (d *Decoder) readMap(dest reflect.Value) error {
 		if err != nil {
 			return err
 		}
-		mPtrValue.Elem().SetMapIndex(EnsureRawValue(key), EnsureRawValue(vl))
+		mPtrValue.Elem().SetMapIndex(convertTo(mapTyp.Key(), EnsureRawValue(key)), convertTo(mapTyp.Elem(), EnsureRawValue(vl)))
 	}
 	SetValue(dest, mPtrValue)
 	return nil
